@@ -12,6 +12,9 @@ func init() {
 	register("C07", propInfo{
 		Explanation: "Decided: pool discipline as ownership/alias/reachability rules. Every pool-hit path resets the object to its new source before handing it out; every return to a pool clears (truncates) the object and every field that may still alias it before the guarding lock is released — or happens under a terminal acquisition; no release of a reader-side (writer-side) pooled object is synchronously reachable from the function that runs underneath the decompressor (compressor); pooled objects are accessed only under the read/write locks; nothing taken from a pool escapes to the API caller.",
 		Decides: []string{
+			"C07.get on bpool: nothing writes or refills the buffer between its Reset and the Put; Get returns the pooled object or an empty new buffer",
+			"C07.unmask / C04.count (shared): the count handed to the decompressor and its pooled bufio reader is the transport's count",
+			"C07.mu: the channel lock itself (C06.recheck = C05.recheck = C07.mu = C09.mu): mu.lock returns nil only holding the lock and after re-polling closed, returns an error only without it, and never releases a lock this call did not acquire; forceLock is one blocking send, unlock at most one receive, tryLock true exactly when its non-blocking send was taken, and nothing else",
 			"C07.get: getFlateReader/getFlateWriter/getBufioReader/getBufioWriter Reset the pooled object with the new source/dictionary on the hit path and construct a fresh one on the miss path; bpool.Put resets; slidingWindow.close truncates to [:0] before Put; slidingWindow.init takes a window only when it has none",
 			"C07.alias: where an owner field's object is returned to a pool outside a terminal acquisition, the owner field and every field that was ever assigned from it are overwritten in the same function before it returns",
 			"C07.live: msgReader.read (running underneath flate/bufio) cannot synchronously reach a release of reader-side pooled objects; msgWriter.write cannot reach a release of writer-side ones",
@@ -26,6 +29,7 @@ func init() {
 	register("C15", propInfo{
 		Explanation: "Decided: the registration/notification protocol of Ping and the echo of received pings, as path rules on the SSA: the pong channel is registered under the mutex before the ping frame is written and removed afterwards; it is buffered and notified without blocking; Ping returns nil only on a receive from its own channel; the pong is the very payload read, sent synchronously; unmatched pongs touch nothing; ping payloads are distinct per call.",
 		Decides: []string{
+			"C15.disarm (= C10.disarm): handling a control frame leaves the timeout watcher disarmed",
 			"C15.reg: activePings[p] = pong (under activePingsMu) precedes writeControl(ctx, opPing, []byte(p)) with the same p; a deferred delete under the mutex follows",
 			"C15.chan: the channel is make(chan struct{}, K) with constant K ≥ 1; the notifier is a select with default",
 			"C15.ret: ping returns nil only after receiving from its own pong channel; closed ↦ net.ErrClosed; ctx.Done ↦ error wrapping ctx.Err() with %w",
